@@ -18,8 +18,53 @@ var metaTopics = []string{
 	"wamp.registration.on_create", "wamp.registration.on_register", "wamp.registration.on_unregister", "wamp.registration.on_delete",
 }
 
+// historyVariantOracle judges C05 on a realm with configured event histories
+// (the C20 generator): broker + dealer + history models, the table-size
+// comparison after every step and after everybody has left. The meta model is
+// not part of it (pre-created history subscriptions in the meta API are a grey
+// zone), so the cases contain no kills.
+func historyVariantOracle(c *Case) Oracle {
+	var b *brokerPart
+	var d *dealerPart
+	o := newComposite(c, "C05", func(w *World) []Part {
+		b = newBrokerPart(w)
+		d = newDealerPart(w)
+		d.handledProcs["wamp.subscription.get_events"] = true
+		h := newHistoryPart(w, b, bubbleEpoch)
+		return []Part{b, d, h}
+	})
+	o.afterStep = func(e *Engine, st *StepRec) *Violation {
+		if st.Phase == "drop" || st.Phase == "close" || e.RouterClosed {
+			return nil
+		}
+		return structCheck(e, o.w, b, d, nil, st)
+	}
+	o.onQuiesced = func(e *Engine) *Violation {
+		now := router.VerifSnapshot(e.R)
+		for uri, base := range e.Baseline {
+			cur, ok := now[uri]
+			if !ok {
+				continue
+			}
+			cur.HistoryEntries = base.HistoryEntries // retained publications are supposed to stay
+			if cur != base {
+				return &Violation{Prop: "C05", Reason: fmt.Sprintf("realm %s (event history configured): after every session has left the router still holds state: baseline %+v, now %+v", uri, base, cur)}
+			}
+		}
+		return nil
+	}
+	o.finishStats = func(st *CaseStats) {
+		st.Label("history_realm_variant")
+		st.NonTrivial = st.Labels["nt05"] > 0
+	}
+	return o
+}
+
 func fullOracle(prop string, snapshot bool) func(c *Case) Oracle {
 	return func(c *Case) Oracle {
+		if prop == "C05" && len(c.Realms) > 0 && len(c.Realms[0].History) > 0 {
+			return historyVariantOracle(c)
+		}
 		var b *brokerPart
 		var d *dealerPart
 		var m *metaPart
@@ -85,7 +130,12 @@ func init() {
 			"including right after refused requests; judged (1) behaviourally by the broker+dealer+meta models (no delivery to ended sessions, calls served answered with ERROR, own calls abandoned and later progressive yields interrupted, testaments exactly once), " +
 			"(2) structurally: after all sessions left and 25 virtual hours passed the H1 table-size snapshot must equal the snapshot taken right after router start. " +
 			"Non-trivial = an ending of a session holding a live subscription, registration, served call, pending call or testament, or following a refused request; distinct = case hash",
-		Gen:       func(t *rapid.T) *Case { return genMixed(t, "C05") },
+		Gen: func(t *rapid.T) *Case {
+			if pct(t, 12, "historyrealm") {
+				return genC20(t) // a realm with event histories: subscribers of history topics come and go
+			}
+			return genMixed(t, "C05")
+		},
 		NewOracle: fullOracle("C05", true),
 		Assumptions: []string{
 			"H1 hook (build tag verif) reads table sizes inside the owning goroutines",
@@ -116,18 +166,21 @@ func structCheck(e *Engine, w *World, b *brokerPart, d *dealerPart, m *metaPart,
 			}
 		}
 		withSubs := map[int]bool{}
-		for _, sb := range b.subs {
+		for key, sb := range b.subs {
 			if sb.realm != realm {
 				continue
 			}
-			want.Subscriptions++
-			switch sb.class {
-			case "prefix":
-				want.PfxSubs++
-			case "wildcard":
-				want.WcSubs++
-			default:
-				want.TopicSubs++
+			if !b.persistent[key] {
+				// (the subscription of a configured event history exists from the start: it is in the baseline)
+				want.Subscriptions++
+				switch sb.class {
+				case "prefix":
+					want.PfxSubs++
+				case "wildcard":
+					want.WcSubs++
+				default:
+					want.TopicSubs++
+				}
 			}
 			want.Subscribers += len(sb.members)
 			for x := range sb.members {
@@ -162,9 +215,11 @@ func structCheck(e *Engine, w *World, b *brokerPart, d *dealerPart, m *metaPart,
 				want.InvocationByCall++
 			}
 		}
-		for s, ts := range m.testaments {
-			if len(ts) > 0 && w.sess[s].realm == realm && w.sess[s].live() {
-				want.Testaments++
+		if m != nil {
+			for s, ts := range m.testaments {
+				if len(ts) > 0 && w.sess[s].realm == realm && w.sess[s].live() {
+					want.Testaments++
+				}
 			}
 		}
 		want.HistoryEntries = cur.HistoryEntries
